@@ -130,6 +130,7 @@ inductive Op
   | qHitDuring (ts : List Time)
   | makeNoise (ts : List Time)
   | clear (reset : Bool)
+  | qHitMC                        -- `is_hit_mc_truth`
 
 inductive Out
   | unit
@@ -178,6 +179,9 @@ def refreshAll := refreshAllWith false
 def refreshTrig (cfg : Cfg) (st : State) : State :=
   { st with triggers := catchTrig cfg.trig st.allWaves st.triggers }
 
+/-- what `make_noise(times)` returns for the realisation `e` -/
+def noiseWave (cfg : Cfg) (e : Nat) (ts : List Time) : Wave := ts.map (fun t => (t, cfg.noise e t))
+
 def stepWith (old : Bool) (cfg : Cfg) (st : State) : Op → State × Out
   | .recv s => ({ st with signals := st.signals ++ [s] }, .unit)
   | .qAll => let st' := refreshAllWith old cfg st; (st', .waves st'.allWaves)
@@ -199,6 +203,15 @@ def stepWith (old : Bool) (cfg : Cfg) (st : State) : Op → State × Out
   | .clear reset =>
       ({ signals := [], allWaves := [], triggers := [],
          master := if reset then none else st.master, nextEpoch := st.nextEpoch }, .unit)
+  | .qHitMC =>
+      -- `if not self.noisy: return self.is_hit`; otherwise: some triggered waveform whose noise alone
+      -- (over the same times) would not have triggered
+      let st' := refreshTrig cfg (refreshAllWith old cfg st)
+      let ws := triggeredOf st'.allWaves st'.triggers
+      if cfg.noisy then
+        let st'' := if ws.isEmpty then st' else touch st'         -- `make_noise` is called iff there is a waveform
+        (st'', .flag (ws.any (fun w => !cfg.trig (noiseWave cfg (st''.master.getD 0) (timesOf w)))))
+      else (st', .flag (decide (0 < ws.length)))
 
 /-- the code as it is now (with repair F10) -/
 def step := stepWith false
@@ -246,6 +259,10 @@ def sysInit : SysState := ⟨init, [], [], []⟩
 def sysFull (c : SysCfg) (m : Option Nat) (sigs : List Wave) (ts : List Time) : Wave :=
   withTimes (c.fe (fullWave c.ant m sigs (leadInTimes c.leadIn ts))) ts
 
+/-- `AntennaSystem.make_noise(times)` for the realisation `e` -/
+def sysNoise (c : SysCfg) (e : Nat) (ts : List Time) : Wave :=
+  withTimes (c.fe ((leadInTimes c.leadIn ts).map (fun t => (t, c.ant.noise e t)))) ts
+
 /-- one pass of the loop body of the `signals` property -/
 def procSig (c : SysCfg) (s : Wave) : Wave :=
   withTimes (c.fe (withTimes s (leadInTimes c.leadIn (timesOf s)))) (timesOf s)
@@ -261,6 +278,7 @@ inductive SysOp
   | makeNoise (ts : List Time)
   | clear (reset : Bool)
   | inner (op : Op)               -- a query made directly on `system.antenna`
+  | qHitMC                        -- `AntennaSystem.is_hit_mc_truth` (no `noisy` shortcut)
 
 def sysRefreshAll (c : SysCfg) (st : SysState) : SysState :=
   let a1 := if c.ant.noisy && needsFull st.ant.signals st.allWaves then touch st.ant else st.ant
@@ -301,6 +319,12 @@ def sysStep (c : SysCfg) (st : SysState) : SysOp → SysState × Out
        .wave (withTimes (c.fe (long.map (fun t => (t, c.ant.noise (a.master.getD 0) t)))) ts))
   | .clear reset =>
       ({ ant := (step c.ant st.ant (.clear reset)).1, sigs := [], allWaves := [], triggers := [] }, .unit)
+  | .qHitMC =>
+      let st' := sysRefreshTrig c (sysRefreshAll c st)
+      let ws := triggeredOf st'.allWaves st'.triggers
+      let a := if ws.isEmpty then st'.ant else touch st'.ant
+      ({ st' with ant := a },
+       .flag (ws.any (fun w => !c.trig (sysNoise c (a.master.getD 0) (timesOf w)))))
   | .inner op =>
       if isQuery op then
         let r := step c.ant st.ant op
@@ -328,5 +352,11 @@ def detNoise (e : Nat) (t : Time) : Val :=
 /-- the halving front end (`signal * 0.5`) and the pass-through default -/
 def halfFe (w : Wave) : Wave := w.map (fun p => (p.1, p.2 * (1 / 2)))
 def idFe (w : Wave) : Wave := w
+/-- pedestal subtraction with the first sample of what the front end is given: `out[k] = in[k] - in[0]`
+(a front end whose output depends on where its input window starts, i.e. on the lead-in) -/
+def baseFe (w : Wave) : Wave := w.map (fun p => (p.1, p.2 - (w.head?.map (·.2)).getD 0))
+/-- one-sample echo: `out[k] = in[k] + in[k-1]/2`, `in[-1] = 0` -/
+def echoFe (w : Wave) : Wave :=
+  List.zipWith (fun p prev => (p.1, p.2 + prev * (1 / 2))) w (0 :: valsOf w)
 
 end Ant
